@@ -82,8 +82,17 @@ def run(tier, seed, pid='C04'):
     # 3: code -> spec: long streams, extreme coalescing, random partitions
     sizes = [(1200, 'none'), (300, 'client'), (200, 'server')] if not thorough else \
         [(5000, 'none'), (2500, 'client'), (1500, 'server'), (800, 'none')]
+    # few messages, one of them far bigger than the longest handshake line allowed (16 KiB): joined with the final
+    # handshake line in one read, its bytes are message data, not an over-long line
+    sizes = sizes + [(3, 'bigclient'), (3, 'bigserver')]
     for j, (nm, role) in enumerate(sizes):
-        inst = long_instance(rng, nm, role, 'long%d' % j)
+        if role.startswith('big'):
+            r = role[3:]
+            inst = Instance(r, {'client': [b'OK 1234'], 'server': [b'AUTH x', b'BEGIN']}[r],
+                            [mk_msg('sig', 1, pad=rng.choice([17000, 40000]), crlf=True), mk_msg('call', 2, endian='B'),
+                             mk_msg('ret', 3, pad=16500)], 'big%d' % j)
+        else:
+            inst = long_instance(rng, nm, role, 'long%d' % j)
         styles = ['one', 'mixed', 'big', 'mixed', 'big', 'small' if nm <= 300 else 'big']
         if thorough:
             styles = styles * 3
